@@ -68,6 +68,9 @@ type fxEngine struct {
 	allTypes  []types.Type
 	implCache map[string][]*ssa.Function
 	nSummar   int
+	// recvIsWrite: a receive from a channel that is not local to the call counts as a write of
+	// shared state (F1: results of overlapping calls cross on a reply channel kept in the shape)
+	recvIsWrite bool
 }
 
 func newFxEngine(ctx *Ctx) *fxEngine {
@@ -608,6 +611,10 @@ func (e *fxEngine) summarize(fn *ssa.Function) *fxSummary {
 				note(a.rootsOf(x.Addr, 0), ins, x.Addr, fmt.Sprintf("store at %s in %s", pos(ins), shortFn(fn)), false)
 			case *ssa.MapUpdate:
 				note(a.rootsOf(x.Map, 0), ins, x.Map, fmt.Sprintf("map update at %s in %s", pos(ins), shortFn(fn)), false)
+			case *ssa.UnOp:
+				if e.recvIsWrite && x.Op == token.ARROW {
+					note(a.rootsOf(x.X, 0), ins, x.X, fmt.Sprintf("receive from a channel shared between calls at %s in %s", pos(ins), shortFn(fn)), false)
+				}
 			case *ssa.Return:
 				for _, r := range x.Results {
 					if pointerLike(r.Type()) {
